@@ -34,9 +34,14 @@ def _logit(p, eps=2.0 ** -23):
 def _grid_uniform(K, N, with_v):
     grid = torch.tensor(O.midpoints(K), dtype=torch.float64)
     per = 2 if with_v else 1
+    cnt = [0]
 
     def uni(shape, dt, device, label, ch):
-        is_v = label.startswith("rand_like")
+        # the unconditional noise u is the first uniform draw of an estimator call and the conditional noise v the
+        # second - told apart by ORDER, never by which torch function draws them (on this product grid the two axes
+        # are interchangeable, so even the order does not matter here)
+        is_v = with_v and cnt[0] % 2 == 1
+        cnt[0] += 1
         nb = per * N
         if tuple(shape) != (N,) + (K,) * nb:
             raise AssertionError(f"unexpected noise shape {tuple(shape)} for {label}")
@@ -171,8 +176,13 @@ def run_relax_region(ctx, cfg):
     for n in range(N):
         wprod = wprod * Wt[idx[:, n]]
 
+    cnt = [0]
+    two_draws = cfg["est"] == "relax"
+
     def uni(shape, dt, device, label, ch):
-        src = Vt if label.startswith("rand_like") else Ut
+        # u = first uniform draw of the call, v = second (by order, not by the torch function used)
+        src = Vt if (two_draws and cnt[0] % 2 == 1) else Ut
+        cnt[0] += 1
         out = torch.stack([src[idx[:, n]] for n in range(N)])  # (N, B, V)
         if logistic:
             out = out.squeeze(-1)
